@@ -122,7 +122,7 @@ def install():
                     why = _meta_ok(self)
                     _record("metadata_after_" + name, why is None, why=why, gates=(None if why is None else repr(_gsnap(self))[:600]))
             except Exception as e:  # monitors never disturb the program
-                _record("monitor_error", True, err=repr(e))
+                _record("monitor_error:" + type(e).__name__ + ":" + str(e)[:60], True)
             return r
         setattr(Circuit, name, w)
 
@@ -148,7 +148,7 @@ def install():
                     why = _meta_ok(r)
                     _record("metadata_of_result_" + name.strip("_"), why is None, why=why)
             except Exception as e:
-                _record("monitor_error", True, err=repr(e))
+                _record("monitor_error:" + type(e).__name__ + ":" + str(e)[:60], True)
             return r
         setattr(Circuit, name, w)
 
@@ -197,7 +197,7 @@ def install():
                 ok = fsnap(self) == s0 and all(fsnap(x) == y for x, y in zip(a, o0))
                 _record(f"{cls.__name__}{name}_operands_unchanged", ok, op=name)
             except Exception as e:
-                _record("monitor_error", True, err=repr(e))
+                _record("monitor_error:" + type(e).__name__ + ":" + str(e)[:60], True)
             return r
         setattr(cls, name, w)
 
@@ -275,7 +275,7 @@ def install_semantic(which=("C01", "C02", "C09", "C17")):
                         ok = all(len(k) == n and ef.get(k, 0.0) > 1e-12 for k in freqs) and abs(sum(freqs.values()) - 1) < 1e-6
                         _record(f"simulate_sampled_support_{name}", ok, gates=repr(gl)[:800], got=repr(freqs)[:400])
         except Exception as e:
-            _record("monitor_error", True, err=repr(e))
+            _record("monitor_error:" + type(e).__name__ + ":" + str(e)[:60], True)
         return r
     if "C01" in which:
         Backend.simulate = simulate
@@ -302,7 +302,7 @@ def install_semantic(which=("C01", "C02", "C09", "C17")):
                     _record(f"expectation_exact_{type(self).__name__}", abs(got - want) < 1e-6 * scale, gates=repr(gl)[:800],
                             operator=repr(terms)[:600], got=repr(got), expected=repr(want))
         except Exception as e:
-            _record("monitor_error", True, err=repr(e))
+            _record("monitor_error:" + type(e).__name__ + ":" + str(e)[:60], True)
         return r
     if "C02" in which:
         Backend.get_expectation_value = get_expectation_value
@@ -331,13 +331,60 @@ def install_semantic(which=("C01", "C02", "C09", "C17")):
                         d = float(np.linalg.norm(u0 - b2, 2))
                         _record("pass_keeps_unitary_" + name, d <= thr + 1e-7, before=repr(gl0)[:800], after=repr(gl1)[:800], distance=d, allowance=thr)
             except Exception as e:
-                _record("monitor_error", True, err=repr(e))
+                _record("monitor_error:" + type(e).__name__ + ":" + str(e)[:60], True)
             return r
         setattr(Circuit, name, w)
 
     if "C09" in which:
         for nm in ("remove_small_rotations", "remove_redundant_gates", "merge_rotations", "simplify"):
             wrap_pass(nm)
+    # ---- C07: after update_var_params the circuit is equivalent to a fresh build (deep copy of the ansatz, build_circuit with the
+    #      parameters it now holds); sampled, small registers only
+    if "C07" in which:
+        import copy
+        import inspect
+        import tangelo.toolboxes.ansatz_generator as agmod
+        seen_calls = collections.Counter()
+        probes = {}
+
+        def wrap_update(cls):
+            orig = cls.__dict__["update_var_params"]
+
+            @functools.wraps(orig)
+            def w(self, var_params):
+                r = orig(self, var_params)
+                try:
+                    seen_calls[cls.__name__] += 1
+                    circ = getattr(self, "circuit", None)
+                    if circ is not None and 0 < circ.width <= 8 and (seen_calls[cls.__name__] <= 5 or _rnd.random() < 0.05):
+                        gl = _numeric_gates(circ, 8, 2500)
+                        if gl is not None and self.var_params is not None:
+                            memo = {}
+                            mol_ = getattr(self, "molecule", None)
+                            if mol_ is not None:
+                                memo[id(mol_)] = mol_      # molecules hold module references (not copyable); ansaetze only read them
+                            fresh = copy.deepcopy(self, memo)
+                            fresh.build_circuit(list(np.asarray(self.var_params).reshape(-1)))
+                            gl2 = _numeric_gates(fresh.circuit, 8, 5000)
+                            if gl2 is not None:
+                                n = max(circ.width, fresh.circuit.width)
+                                if n not in probes:
+                                    rs = np.random.default_rng(777 + n)
+                                    v = rs.normal(size=2 ** n) + 1j * rs.normal(size=2 ** n)
+                                    probes[n] = v / np.linalg.norm(v)
+                                d = max(refsim.dist_up_to_phase(refsim.run(gl, n), refsim.run(gl2, n)),
+                                        refsim.dist_up_to_phase(refsim.run(gl, n, probes[n]), refsim.run(gl2, n, probes[n])))
+                                _record("update_equals_rebuild_" + cls.__name__, d < 1e-7, ansatz=cls.__name__, distance=d,
+                                        var_params=repr(list(np.asarray(self.var_params).reshape(-1)))[:600])
+                except Exception as e:
+                    _record("monitor_error:" + type(e).__name__ + ":" + str(e)[:60], True)
+                return r
+            setattr(cls, "update_var_params", w)
+
+        for nm_, cls in inspect.getmembers(agmod, inspect.isclass):
+            if cls.__module__.startswith("tangelo.toolboxes.ansatz_generator") and "update_var_params" in cls.__dict__ \
+                    and not inspect.isabstract(cls):
+                wrap_update(cls)
     if "C17" not in which:
         return
 
@@ -361,7 +408,7 @@ def install_semantic(which=("C01", "C02", "C09", "C17")):
                     d = float(np.abs(uc - refsim.unitary(gl, n)).max())
                     _record("translate_cirq_unitary", d < 1e-7, gates=repr(gl)[:800], distance=d)
         except Exception as e:
-            _record("monitor_error", True, err=repr(e))
+            _record("monitor_error:" + type(e).__name__ + ":" + str(e)[:60], True)
         return r
     for mname, mod in list(_sys.modules.items()):
         if mname.startswith("tangelo") and mod is not None:
